@@ -12,6 +12,7 @@ Definition EMismatch : nat := 4%nat.     (* digest length mismatch *)
 Definition ENotIdentity : nat := 5%nat.  (* code is not the identity function *)
 Definition EBadKeyType : nat := 6%nat.   (* crypto.ErrBadKeyType *)
 Definition EKeyLen : nat := 7%nat.       (* wrong raw key length *)
+Definition ENotCanonical : nat := 8%nat. (* id is not the canonical encoding of its public key *)
 (* EPb = 20 (Id/Pb.v), EB58 = 58 (Lib/Base58.v) *)
 
 (* ---------- peer/id.go ---------- *)
@@ -54,11 +55,16 @@ Definition id_from_bytes (b : bytes) : outcome bytes :=
   r <- decode_multihash b ;;
   if fst r =? mh_identity then Ok b else Err ENotIdentity.
 
+Definition matches_pub (id pk : bytes) : bool := bytes_eqb (id_from_pub pk) id.
+
+(* ID.ExtractPublicKey: the embedded key is returned only if the id is the one
+   derived from it (other encodings of the same key are rejected) *)
 Definition extract_pub (id : bytes) : outcome bytes :=
   r <- decode_multihash id ;;
-  if fst r =? mh_identity then unmarshal_pub (snd r) else Err ENotIdentity.
-
-Definition matches_pub (id pk : bytes) : bool := bytes_eqb (id_from_pub pk) id.
+  if fst r =? mh_identity then
+    pk <- unmarshal_pub (snd r) ;;
+    if matches_pub id pk then Ok pk else Err ENotCanonical
+  else Err ENotIdentity.
 
 Definition idb58_encode (id : bytes) : bytes := b58_encode id.
 
